@@ -124,7 +124,8 @@ fn history(seed: u64, st: &mut Stats, max_users: usize) {
     let mut h = H { cc, msk, usks: vec![], issued: 0 };
     let n_ops = rng.range(10, 10 + 2 * max_users);
     let mut kinds = String::new();
-    let mut old_msk: Option<Vec<u8>> = None;
+    // the first snapshot is taken before any key is issued (empty registry)
+    let mut old_msk: Option<Vec<u8>> = ser(&h.msk).ok();
     let mut unknown_tests = 0;
     for _ in 0..n_ops {
         let k = rng.weighted(&[6, 5, 2, 2, 1, 2, 2]);
@@ -202,7 +203,7 @@ fn history(seed: u64, st: &mut Stats, max_users: usize) {
             }
             5 => {
                 // remember the master key as it is now (an older serialization later)
-                if old_msk.is_none() || rng.chance(1, 3) {
+                if old_msk.is_none() || rng.chance(1, 4) {
                     old_msk = ser(&h.msk).ok();
                 }
             }
